@@ -277,14 +277,55 @@ func replay(cf *evid.CaseFile) error {
 	return err
 }
 
+// bigRows: results of tens of thousands of rows (more than 65,536 groups,
+// a count that is a multiple of neither 4096 nor a small worker count), and
+// thousands of distinct statements on ONE handle followed by the first ones
+// again (whatever a connection remembers per statement text is turned over).
+func bigRows(t *testing.T, n int, opts string) {
+	spec := gen.DataSpec{Recipe: &gen.Recipe{N: n, Cols: []gen.ColSpec{
+		{Name: "u", Prefix: "r", Kind: gen.KUnique}, {Name: "g", Kind: gen.KMod, K: 3, Prefix: "p"}}}}
+	taut := qref.T{Op: model.OpNot, Subs: []qref.T{{Op: model.OpEq, Col: "g", Val: "none"}}}
+	run(t, &Case{Data: spec, DSNOpts: opts, Queries: []Q{
+		{Tree: taut, GroupBy: []string{"u"}}, {Tree: taut, GroupBy: []string{"g", "u"}, Prepare: true},
+		{Tree: qref.T{Op: model.OpEq, Col: "g", PH: 1}, GroupBy: []string{"u"}, Args: []string{"p1"}, Prepare: true}}})
+}
+
+func manyStatements(t *testing.T, n int, opts string) {
+	spec := gen.DataSpec{Recipe: &gen.Recipe{N: 600, Cols: []gen.ColSpec{
+		{Name: "u", Prefix: "r", Kind: gen.KUnique}, {Name: "g", Kind: gen.KMod, K: 3, Prefix: "p"}}}}
+	c := &Case{Data: spec, DSNOpts: opts}
+	for round := 0; round < 2; round++ {
+		lim := n
+		if round == 1 {
+			lim = 60 // the oldest texts again
+		}
+		for i := 0; i < lim; i++ {
+			// distinct texts: the literal differs; every 7th uses a placeholder
+			q := Q{Tree: qref.T{Op: model.OpAnd, Subs: []qref.T{{Op: model.OpEq, Col: "u", Val: fmt.Sprintf("r%d", i%700)}, {Op: model.OpNot, Subs: []qref.T{{Op: model.OpEq, Col: "g", Val: fmt.Sprintf("x%d", i)}}}}}, Prepare: i%3 == 0}
+			if i%7 == 0 {
+				q.Tree.Subs[0] = qref.T{Op: model.OpEq, Col: "u", PH: 1}
+				q.Args = []string{fmt.Sprintf("r%d", i%700)}
+			}
+			c.Queries = append(c.Queries, q)
+		}
+	}
+	run(t, c)
+}
+
 func TestQuick(t *testing.T) {
 	fix.Pinned(t, prop, replay)
+	bigRows(t, 70001, "")
+	manyStatements(t, 4300, "lrucache=true&lrucachesize=1048576")
 	fix.Check(t, "rows", 500, func(rt *rapid.T) { run(rt, drawCase(rt, 2000)) })
 }
 
 func TestThorough(t *testing.T) {
 	if shard, _ := evid.Shard(); shard == 0 {
 		fix.Pinned(t, prop, replay)
+		bigRows(t, 70001, "")
+		bigRows(t, 21000, "preload=true")
+		manyStatements(t, 4300, "lrucache=true&lrucachesize=1048576")
+		manyStatements(t, 9000, "")
 	}
 	fix.Check(t, "rows", 15000, func(rt *rapid.T) { run(rt, drawCase(rt, 2000)) })
 }
